@@ -5,6 +5,10 @@ sys.path.insert(0, '/verif/rules')
 NA = {}
 NOT_BUILT = 'static check for this property is not built yet (planned rule table in DESIGN.md section 4); not claimed until it runs'
 TECH = {}
+def census_note(mod):
+	ids = [rid[-1] for rid, desc, fn in mod.RULES if rid[-2:] in ('.p', '.q', '.w', '.v')]
+	names = {'p': 'same-name field transfers', 'q': 'swapped arguments', 'w': 'narrow arithmetic widened afterwards', 'v': 'field-versus-field comparisons'}
+	return (' Also evaluated on the files / types of this property: the crate-wide censuses of rules/provenance.py (%s).' % ', '.join(names[i] for i in ids)) if ids else ''
 props = [json.loads(l)['id'] for l in open('/verif/properties.jsonl')]
 checks = []
 na = []
@@ -21,7 +25,7 @@ for pid in props:
 			'replay_cmd_template': './check %s --replay {path}' % pid,
 			'engine': 'rules',
 			'level_claimed': {'category': 'other',
-				'text': 'Exhaustive static check (every path of the analysed functions, every matching site in the workspace library build; quick = release profile, thorough = release + dev profiles and the type-level witnesses) of the structural necessary conditions of %s listed in DESIGN.md section 4. It decides those conditions, not the behavioural property as a whole: %s' % (pid, mod.EXPLANATION[:600]),
+				'text': 'Exhaustive static check (every path of the analysed functions, every matching site in the workspace library build; quick = release profile, thorough = release + dev profiles and the mutation self-test) of the structural necessary conditions of %s listed in DESIGN.md sections 4 and 8. It decides those conditions, not the behavioural property as a whole: %s%s' % (pid, mod.EXPLANATION[:600], census_note(mod)),
 				'design_ref': 'DESIGN.md section 4, %s' % pid},
 			'level_note': 'Trusted: nightly rustc MIR construction and trait resolution; the frozen sets in rules/%s.py (each confirmed by reading the code); %s' % (pid, '; '.join(getattr(mod, 'ASSUMPTIONS', []))),
 			'technique': getattr(mod, 'TECHNIQUE', 'static analysis: custom MIR-level rules (call-graph / construction / field-write censuses, guarded-act and must-pass-through path rules, comparison normal forms) over the type-checked program'),
